@@ -16,7 +16,8 @@ RULE = ("pairs and lists of quantities of one dimension in convertible units and
         "values or interval relation); non-trivial = the operands are not the same object"
         " Plus exact int/Decimal magnitudes beyond float, temperature scales judged by exact kelvin values, \"ladders\" of small round readings in everyday units (neighbours such as -1/-2 side by side, pairs 1e-10 apart across units) compared back to back and sorted, and incomparable partners (other dimension, plain numbers) for measurements and levels."
         " Unit pairs with a conversion in one direction only are found by probing (shipped units and a crate = span**3 family of the program's own): both argument orders rest on the one conversion, so every operator must mirror exactly."
-        " Plus equivalences declared from a prefixed side, and operator coherence inside the tie band.")
+        " Plus equivalences declared from a prefixed side, and operator coherence inside the tie band."
+        " Quantities hashed by another process before it stored them (pickled list/dict/set) and quantities hashed here before an in-place edit or a copy hash like equal fresh ones; levels in different logarithmic units denoting quantities 1e-15..1e-6 apart compare the same in both orders.")
 ASSUMPTIONS = [
     "physical order is judged by oracle SI values; pairs within the tie band (1e-5 per degree + size-interval width) "
     "are only required to be consistent (never both < and >), not to be == ",
